@@ -60,8 +60,12 @@ def is_pdu_bytes(raw, typ):
 @cond(bounds='one instance per event 1..19; protocol state symbolic over all 13 states (so all 247 cells, defined '
              'and undefined), role requestor/acceptor symbolic, ARTIM running/stopped before the action symbolic, two '
              'symbolic bytes in the fields of the triggering PDU, symbolic P-DATA payload (<= 3 bytes); for events '
-             'without a PDU of their own the primitive slot holds None or a stale PDU (symbolic choice)',
-      family={'evt': list(range(1, 20))}, timeout=120)
+             'without a PDU of their own the primitive slot holds None or a stale PDU (symbolic choice); instances '
+             '"reset": the cells whose action closes the transport connection without writing to it (AE-4, AR-3, AA-2, '
+             'AA-3), executed on a connection the peer has already RESET (what was received before is still '
+             'readable, shutdown() fails with ENOTCONN, writes fail): same indication, connection closed and released, same '
+             'next state',
+      family=[dict(evt=e) for e in range(1, 20)] + [dict(evt=e, reset=True) for e in (4, 13, 15, 16, 18)], timeout=120)
 def cell(state: int, requestor: bool, timer_running: bool, stale: bool, b1: int, b2: int, data: bytes) -> bool:
     """
     pre: 0 <= state <= 12 and 0 <= b1 <= 255 and 0 <= b2 <= 255 and 1 <= len(data) <= 3
@@ -84,6 +88,10 @@ def cell(state: int, requestor: bool, timer_running: bool, stale: bool, b1: int,
     prov.event.clear()
     sm.current_state = state
     exp = ref.effect(evt, state + 1, requestor)
+    if fam('reset', False):
+        if not (exp is not None and exp[3] and exp[1] is None):
+            return True                       # only the cells that close without writing
+        sock.peer_reset = True
     raised = False
     try:
         sm.action(evt - 1)
